@@ -889,8 +889,10 @@ class Emitter:
         W = self.ity(max(bits, 32) if bits <= 64 else bits) if bits in STD_BITS else T
         if o == 'sub' and bits == 64 and getattr(self, 'ptrtoint_src', None) and isinstance(ins.a, Local) \
                 and isinstance(ins.b, Local) and ins.a.name in self.ptrtoint_src and ins.b.name in self.ptrtoint_src:
-            return '((uint64_t)(int64_t)((uint8_t*)%s - (uint8_t*)%s))' % (
-                self.val(self.ptrtoint_src[ins.a.name]), self.val(self.ptrtoint_src[ins.b.name]))
+            pa = '(uint8_t*)' + self.val(self.ptrtoint_src[ins.a.name])
+            pb = '(uint8_t*)' + self.val(self.ptrtoint_src[ins.b.name])
+            # equal pointers (incl. NULL - NULL of an empty container, which CBMC does not fold either) -> 0
+            return '((uint64_t)((%s == %s) ? (int64_t)0 : (int64_t)(%s - %s)))' % (pa, pb, pa, pb)
         if o in ('add', 'sub', 'mul', 'and', 'or', 'xor'):
             c = {'add': '+', 'sub': '-', 'mul': '*', 'and': '&', 'or': '|', 'xor': '^'}[o]
             return '((%s)((%s)%s %s (%s)%s))' % (T, W, a, c, W, b)
@@ -1472,7 +1474,8 @@ class Emitter:
     def emit_module(self, roots):
         mod = self.mod
         # compiler-generated helpers that are *defined* in the IR but have a runtime model (the model wins)
-        for n in ('__clang_call_terminate',):
+        # (std::exception_ptr members are inline in libstdc++ and get emitted out of line under -fno-inline)
+        for n in ('__clang_call_terminate',) + tuple(k for k in RT_FUNCS if k.startswith('_ZNSt15__exception_ptr13exception_ptr')):
             f0 = mod.funcs.get(n)
             if f0 is not None and not f0.is_decl and n in RT_FUNCS:
                 f0.is_decl = True
